@@ -14,6 +14,9 @@ Meters == IF MeterSet = "small" THEN {<<4,4>>, <<3,4>>, <<6,8>>, <<0,0>>}
 C1 == [rest |-> FALSE, items |-> <<[t |-> "bare", n |-> <<"C">>, o |-> 0]>>]
 C2 == [rest |-> FALSE, items |-> <<[t |-> "bare", n |-> <<"E">>, o |-> 0], [t |-> "bare", n |-> <<"C">>, o |-> 0], [t |-> "pair", n |-> <<"G","#">>, o |-> 3]>>]
 RestArg == [rest |-> TRUE, items |-> <<>>]
+\* one plain name / two plain names: given to the bar as a string, a Note, a list or a container (the replay driver cycles the forms)
+C3 == [rest |-> FALSE, items |-> <<[t |-> "bare", n |-> <<"D">>, o |-> 0]>>]
+C4 == [rest |-> FALSE, items |-> <<[t |-> "bare", n |-> <<"F">>, o |-> 0], [t |-> "bare", n |-> <<"A","b">>, o |-> 0]>>]
 Acts(b) ==
   {[op |-> "place_notes", v |-> v, arg |-> C1] : v \in Vals} \cup
   {[op |-> "place_rest", v |-> v] : v \in Vals} \cup
@@ -21,7 +24,7 @@ Acts(b) ==
   (IF b.entries # <<>> THEN {[op |-> "remove_last"]} ELSE {})
 \* content edits and meter changes: only in random walks (they are not part of the accounting invariants' alphabet)
 EditActs(b) ==
-  {[op |-> "set_item", i |-> i, arg |-> a] : i \in 1..Len(b.entries), a \in {C2, RestArg}} \cup
+  {[op |-> "set_item", i |-> i, arg |-> a] : i \in 1..Len(b.entries), a \in {C2, C3, C4, RestArg}} \cup
   {[op |-> "place_at", i |-> i, arg |-> C2] : i \in {j \in 1..Len(b.entries) : ~b.entries[j].c.rest /\ \A k \in 1..Len(b.entries) : b.entries[k].at = b.entries[j].at => k = j}} \cup
   {[op |-> "set_meter", count |-> m[1], unit |-> m[2]] : m \in {<<4,4>>, <<6,8>>, <<3,6>>, <<5,4>>, <<0,0>>, <<2,3>>, <<12,8>>, <<4,5>>, <<3,2>>, <<7,12>>, <<4,-4>>, <<3,-1>>, <<4,0>>, <<2,-2>>, <<6,-8>>}}
 Step(b, a) == CASE a.op = "place_notes" -> Place(b, a.v, a.arg)
